@@ -296,6 +296,11 @@ class Lib:
                 nm = nm.with_col(f, z3.Store(nm.cols[f], k, self.col_term(run, nm.vkinds[f], x)))
             if isinstance(v, Ref):
                 nm.record_cls = run.deref(v).cls
+                # Python stores a reference: a local name bound to the same object now denotes the dictionary entry, so
+                # that a later `model.init(...)` through that name updates the stored model (aliasing)
+                for _nm, _val in list(run.env.items()):
+                    if isinstance(_val, Ref) and _val.loc == v.loc:
+                        run.env[_nm] = EntryRef(ref.loc, k)
             if getattr(m, 'shared_rng', None) is not None:
                 nm.shared_rng = m.shared_rng
             if '#rng_shared' in nm.cols and 'rng' in fields:
